@@ -20,6 +20,9 @@ pub(super) enum State<'a, 'p> {
     DiscardValue,
     DoThunk(GcView<ThunkData<'p>>),
     GotThunk(GcView<ThunkData<'p>>),
+    // Marks that the assertions of an object are being checked
+    // (they are above this item in the stack).
+    ObjectAsserts(GcView<ObjectData<'p>>),
     DeepValue,
     SwapLastValues,
     CoerceToString,
